@@ -474,6 +474,10 @@ def fast_slow_part(chk: Check, cases=None):
                     for s in seeds:
                         cases.append({"mode": "nn", "kind": kind, "lat": lat_kind, "n": n, "nelec": list(nelec),
                                       "U": 4.0, "u1": u1, "seed": chk.seed * 1000 + 500 + s, "dt": DT})
+                if lat_kind == "chain" and n == 4:
+                    for bonds in ("open", "all"):
+                        cases.append({"mode": "nn", "kind": kind, "lat": lat_kind, "n": n, "nelec": list(nelec), "U": 4.0,
+                                      "u1": 0.5, "seed": chk.seed * 1000 + 700, "dt": DT, "bonds": bonds})
     items = []
     groups = Groups(every=3)
     for c in cases:
@@ -487,6 +491,12 @@ def fast_slow_part(chk: Check, cases=None):
         else:
             _, adj, _ = cpmc.lattice_of(n, None, c["lat"])
             nb = tuple((i, j) for i in range(n) for j in range(i + 1, n) if adj[i, j])
+            # bond lists whose length differs from the number of sites (open chain / all pairs): the neighbour
+            # interaction is defined by the list the caller passes, not by the lattice
+            if c.get("bonds") == "open":
+                nb = nb[:-1]
+            elif c.get("bonds") == "all":
+                nb = tuple((i, j) for i in range(n) for j in range(i + 1, n))
             fast = propagation.propagator_cpmc_nn(dt=c["dt"], n_walkers=nw, neighbors=nb)
             slow = propagation.propagator_cpmc_nn_slow(dt=c["dt"], n_walkers=nw, neighbors=nb)
             fn, sn = "propagator_cpmc_nn", "propagator_cpmc_nn_slow"
@@ -574,6 +584,27 @@ def exp_h1_part(chk: Check, cases=None):
                      "max|exp_h1 - expm(-dt K/2)|": resid,
                      "max|exp_h1 - expm(-dt/2 (K + U n_i - U/2))|": float(np.max(np.abs(got[0] - alt)))})
         items.append(((len(items), "uniform" if uniform else "nonuniform"), resid, 1.0, (c, dens)))
+    # with no Cholesky vectors in ham_data (the set-up the code's own TODO announces) the one-body propagator must be
+    # exactly expm(-dt K_s / 2) for each spin's own kinetic matrix, e.g. with a Zeeman / staggered pinning field
+    import jax.numpy as jnp
+    from ad_afqmc import hamiltonian
+    for c in cases[:: max(1, len(cases) // 6)]:
+        rng = np.random.default_rng(c["seed"] + 78)
+        n = c["n"]
+        prop = propagation.propagator_cpmc(dt=c["dt"], n_walkers=4)
+        trial, wd, hd, K, lat, _ = hubbard_setup(c["lat"], n, tuple(c["nelec"]), c["U"], c["kind"], rng, c["nonuniform"], 4, prop)
+        field = np.diag(0.4 * (-1.0) ** np.arange(n) + 0.1 * rng.standard_normal(n))
+        Ks = [K + field, K - field]
+        hd2 = {"h0": 0.0, "h1": jnp.array(np.array(Ks)), "chol": jnp.zeros((1, n * n)), "ene0": 0.0, "u": c["U"]}
+        hd2 = hamiltonian.hamiltonian(n).build_propagation_intermediates(hd2, prop, trial, wd)
+        got = np.asarray(hd2["exp_h1"])
+        resid = float(max(np.max(np.abs(got[sp] - expm(-c["dt"] * Ks[sp] / 2.0))) for sp in (0, 1)))
+        chk.case(("exp_h1-nochol", c["lat"], n, c["kind"]))
+        chk.traces += 1
+        if resid > 1e-12:
+            report(chk, "propagator_cpmc._build_propagation_intermediates:exp_h1:no-cholesky-vectors",
+                   f"exp_h1 with zero Cholesky vectors and a spin-dependent one-body part ({c['lat']} n={n}): differs from "
+                   f"expm(-dt K_s/2) of each spin's own kinetic matrix by {resid:.3e}", c)
     verdict = close_items(chk, items, "exph1")
     for (key, resid, sc, (c, dens)) in items:
         chk.case(("exp_h1", c["lat"], c["n"], tuple(c["nelec"]), c["kind"], c["nonuniform"], c["U"], c["dt"]))
